@@ -28,6 +28,20 @@ if TYPE_CHECKING:
     from numpy.typing import ArrayLike, NDArray
 
 
+def _as_float_value(value: float | int | ArrayLike) -> float | NDArray[np.floating]:
+    """A parameter value as float64 data.
+
+    NumPy scalars and arrays keep their dtype under ``np.asarray``; arithmetic with a
+    float32 / integer value would run in that type (rounding to 1e-8, wrap-around).
+    """
+    if isinstance(value, (int, float)):
+        return float(value)
+    arr = np.asarray(value)
+    if arr.dtype.kind in "biu" or (arr.dtype.kind == "f" and arr.dtype != np.float64):
+        arr = arr.astype(np.float64)
+    return arr
+
+
 class Parameter(Expression):
     """An updatable constant for optimization problems.
 
@@ -69,9 +83,7 @@ class Parameter(Expression):
             value: Initial value (default: 0.0).
         """
         self.name = name
-        self._value: float | NDArray[np.floating] = (
-            np.asarray(value) if not isinstance(value, (int, float)) else float(value)
-        )
+        self._value: float | NDArray[np.floating] = _as_float_value(value)
 
     @property
     def value(self) -> float | NDArray[np.floating]:
@@ -96,9 +108,7 @@ class Parameter(Expression):
             >>> price.value
             120.0
         """
-        new_value: float | NDArray[np.floating] = (
-            np.asarray(value) if not isinstance(value, (int, float)) else float(value)
-        )
+        new_value: float | NDArray[np.floating] = _as_float_value(value)
 
         # Check shape compatibility for arrays
         if isinstance(self._value, np.ndarray) and isinstance(new_value, np.ndarray):
